@@ -77,6 +77,32 @@ struct Client {
     bool saw_eof{false};
 };
 
+// One listening port per worker process, reused from case to case (the relay sets SO_REUSEADDR).  A fresh ephemeral port per
+// case would stay blocked for a minute by the TIME_WAIT remains of its connections; a long run then eats the whole ephemeral
+// port range and fails every other program on the machine as well.
+std::uint16_t& process_listen_port() { static std::uint16_t p = 0; return p; }
+bool start_on_process_port(RelayServer& server) {
+    if (server.start()) {
+        if (process_listen_port() == 0) {
+            sockaddr_in a{};
+            socklen_t l = sizeof a;
+            getsockname(server.listen_fd_, reinterpret_cast<sockaddr*>(&a), &l);
+            process_listen_port() = ntohs(a.sin_port);
+        }
+        return true;
+    }
+    // the remembered port was taken by somebody else in the meantime: pick a new one
+    if (server.listen_fd_ >= 0) { ::close(server.listen_fd_); server.listen_fd_ = -1; }
+    process_listen_port() = 0;
+    server.config_.listen_port = 0;
+    if (!server.start()) return false;
+    sockaddr_in a{};
+    socklen_t l = sizeof a;
+    getsockname(server.listen_fd_, reinterpret_cast<sockaddr*>(&a), &l);
+    process_listen_port() = ntohs(a.sin_port);
+    return true;
+}
+
 struct Stepper {
     Ctx& c;
     EventLoop loop;
@@ -86,9 +112,9 @@ struct Stepper {
     std::size_t step{0};
     bool harness_failed{false};
 
-    explicit Stepper(Ctx& ctx) : c(ctx), server(loop, RelayServerConfig{"127.0.0.1", 0, std::chrono::seconds(10)}) {
+    explicit Stepper(Ctx& ctx) : c(ctx), server(loop, RelayServerConfig{"127.0.0.1", process_listen_port(), std::chrono::seconds(10)}) {
         std::cout.setstate(std::ios::failbit);   // "Relay server listening" banner
-        if (!server.start()) { harness_failed = true; return; }
+        if (!start_on_process_port(server)) { harness_failed = true; return; }
         sockaddr_in a{};
         socklen_t l = sizeof a;
         getsockname(server.listen_fd_, reinterpret_cast<sockaddr*>(&a), &l);
@@ -626,8 +652,8 @@ void relay_threaded_case(Ctx& c, Rng& r, bool resources) {
     {
         std::cout.setstate(std::ios::failbit);
         EventLoop loop;
-        RelayServer server(loop, RelayServerConfig{"127.0.0.1", 0, std::chrono::seconds(10)});
-        if (!server.start()) { c.violation("harness:relay:server-start-failed", "{}"); return; }
+        RelayServer server(loop, RelayServerConfig{"127.0.0.1", process_listen_port(), std::chrono::seconds(10)});
+        if (!start_on_process_port(server)) { c.violation("harness:relay:server-start-failed", "{}"); return; }
         sockaddr_in sa{};
         socklen_t sl = sizeof sa;
         getsockname(server.listen_fd_, reinterpret_cast<sockaddr*>(&sa), &sl);
